@@ -97,6 +97,44 @@ def verify_and_check(sid, budget):
     return meta
 
 
+def check_benign(bid, budget):
+    """A property-PRESERVING change: suite passes, both checks must stay silent."""
+    sd = os.path.join(VERIF, "benign", bid)
+    meta_path = os.path.join(sd, "meta.json")
+    meta = json.load(open(meta_path)) if os.path.exists(meta_path) else {}
+    d, copy = scratch_copy()
+    try:
+        rc, out = sh(["git", "apply", "--whitespace=nowarn", os.path.join(sd, "patch.diff")], cwd=copy)
+        if rc != 0:
+            raise SystemExit("patch does not apply: " + out)
+        rct, outt = sh([PY, "-m", "pytest", "-q", "-p", "no:cacheprovider", "--no-header"], cwd=copy, timeout=1200)
+        m = re.search(r"(\d+) passed", outt)
+        f = re.search(r"(\d+) failed", outt)
+        meta["verified"] = {"suite_passed": int(m.group(1)) if m else 0, "suite_failed": int(f.group(1)) if f else 0}
+        env = dict(os.environ)
+        env["VERIF_EVIDENCE_DIR"] = os.path.join(d, "evidence")
+        env["VERIF_REPLAY_DIR"] = os.path.join(d, "replays")
+        checks = {}
+        for prop in ("C12", "C13"):
+            t0 = time.time()
+            rc, out = sh([os.path.join(VERIF, "check"), prop, "quick", "--repo", copy, "--budget", str(budget)], env=env)
+            runs = re.search(r": (\d+) runs", out)
+            entry = {"exit": rc, "silent": rc == 0 and "VIOLATION" not in out, "seconds": round(time.time() - t0, 1), "runs": int(runs.group(1)) if runs else None}
+            if not entry["silent"]:
+                entry["output_tail"] = out[-1500:]
+                mm = re.search(r"^VIOLATION property=(\S+) replay=(\S+)", out, re.M)
+                if mm and os.path.exists(mm.group(2)):
+                    shutil.copy(mm.group(2), os.path.join(sd, "alarm-%s.json" % prop))
+            checks[prop] = entry
+            print("   %s %s: %s" % (bid, prop, json.dumps({k: v for k, v in entry.items() if k != "output_tail"})))
+            if not entry["silent"]:
+                print(entry["output_tail"][-700:])
+        meta["checks"] = checks
+    finally:
+        shutil.rmtree(d, ignore_errors=True)
+    json.dump(meta, open(meta_path, "w"), indent=1)
+
+
 def main():
     if len(sys.argv) < 2:
         raise SystemExit(__doc__)
@@ -111,6 +149,17 @@ def main():
         meta = {"id": sid, "breaks": prop, "source": "independent sub-agent given only the property text and a scratch worktree", "needs": open(notes).read().strip()}
         json.dump(meta, open(os.path.join(sd, "meta.json"), "w"), indent=1)
         verify_and_check(sid, budget)
+    elif sys.argv[1] == "add-benign":
+        bid, patch, why = sys.argv[2:5]
+        sd = os.path.join(VERIF, "benign", bid)
+        os.makedirs(sd, exist_ok=True)
+        shutil.copy(patch, os.path.join(sd, "patch.diff"))
+        shutil.copy(why, os.path.join(sd, "why.txt"))
+        json.dump({"id": bid, "kind": "property-preserving change (false-alarm test)", "source": "independent sub-agent given only the property texts", "why_it_holds": open(why).read().strip()}, open(os.path.join(sd, "meta.json"), "w"), indent=1)
+        check_benign(bid, budget)
+    elif sys.argv[1] == "run-benign":
+        for bid in sys.argv[2:] or sorted(os.listdir(os.path.join(VERIF, "benign"))):
+            check_benign(bid, budget)
     elif sys.argv[1] == "run":
         ids = sys.argv[2:] or sorted(os.listdir(SEEDED))
         for sid in ids:
